@@ -725,6 +725,112 @@ theorem apply_operator_footprint {s s' : State K} (hwf : WF s) {h : Nat}
   · exact h1 o g1 ⟨g2, g3⟩
   · exact h2 j oj g1 g2 g3
 
+/-- **values of an in-place operation with a number**: after `a <op>= v` every valid cell of `a` holds
+`op(old value, v)` and every ghost cell holds what it held before. -/
+theorem inplace_scalar_values {s s' : State K} (hwf : WF s) {bop : BinOp} {a : Nat} {v : K}
+    {k : Nat} {oa : Obj} (hoa : s.objs[a]? = some oa)
+    (hs : step G s (.inplace bop a (.num v k)) = .ok s') (p : Nat) (hp : p < oa.view.len) :
+    (s'.denote a)[p]? = some
+      (if validSel G oa p = true then opv bop ((s.denote a)[p]?).join (some v)
+       else ((s.denote a)[p]?).join) := by
+  obtain ⟨hb, hsz⟩ := hwf a oa hoa
+  have hden : (s.denote a)[p]? = some (s.store.read oa.view.buf (oa.view.off + p)) := by
+    unfold State.denote; rw [hoa]
+    exact Store.getElem?_readView _ _ p hp (by simpa using hsz)
+  have hlen : (s.store.readView oa.view).length = oa.view.len :=
+    Store.length_readView _ _ (by simpa using hsz)
+  simp only [step, inplace] at hs
+  unfold getObj at hs
+  rw [hoa] at hs
+  simp only at hs
+  split at hs
+  · cases hs
+  split at hs
+  · cases hs
+  cases hs
+  rw [denote_writeSel hwf _ _ _ hoa p hp, hden]
+  have e1 : oa.view.off + p - oa.view.off = p := by omega
+  simp only [e1, Option.join_some]
+  have hcell : cellOf (s.store.readView oa.view) p = s.store.read oa.view.buf (oa.view.off + p) := by
+    unfold cellOf
+    rw [hlen, Nat.mod_eq_of_lt hp, Store.getElem?_readView _ _ p hp (by simpa using hsz)]
+    rfl
+  by_cases hv : validSel G oa p = true
+  · rw [if_pos ⟨trivial, by omega, by omega, hv⟩, if_pos hv, hcell]
+  · rw [if_neg (fun h => hv h.2.2.2), if_neg hv]
+
+/-- **values of `a <op> v` for a field `a` and a number `v`**: the result (the new object) holds
+`op(a's value, v)` at every valid cell and, at every ghost cell, `a`'s value converted to the dtype
+`t` of the result (`result = a.copy(dtype=t)`, then the ufunc writes `result.data`). -/
+theorem binop_scalar_values {s s' : State K} (hwf : WF s) {bop : BinOp} {a : Nat} {v : K}
+    {k : Nat} {oa : Obj} (hoa : s.objs[a]? = some oa) (hc : oa.cls ≠ .coll)
+    (hs : step G s (.binop bop a (.num v k)) = .ok s') :
+    ∃ t : DType, ∀ p, p < oa.view.len →
+      (s'.denote s.objs.length)[p]? = some
+        (if validSel G oa p = true then opv bop ((s.denote a)[p]?).join (some v)
+         else (((s.denote a)[p]?).join).map (DCast.dcast t)) := by
+  obtain ⟨hb, hsz⟩ := hwf a oa hoa
+  have hsz' : oa.view.off + oa.view.len ≤ s.store.size oa.view.buf := by simpa using hsz
+  have hlen : (s.store.readView oa.view).length = oa.view.len := Store.length_readView _ _ hsz'
+  simp only [step, binop] at hs
+  unfold getObj at hs
+  rw [hoa] at hs
+  simp only at hs
+  split at hs
+  · cases hs
+  split at hs
+  · cases hs
+  refine ⟨(s.store.dtOf oa.view.buf).resultScalar k, ?_⟩
+  intro p hp
+  have hden : (s.denote a)[p]? = some (s.store.read oa.view.buf (oa.view.off + p)) := by
+    unfold State.denote; rw [hoa]
+    exact Store.getElem?_readView _ _ p hp hsz'
+  unfold copyThenWrite at hs
+  split at hs
+  · cases hs
+  rename_i s1 hc1
+  obtain ⟨e1, _, hf⟩ := eff_copyAny hwf hc1
+  have hs1 := hf hc
+  subst hs1
+  split at hs
+  · cases hs
+  rename_i r hr
+  cases hs
+  have hlast : lastId (copyField s oa (some ((s.store.dtOf oa.view.buf).resultScalar k))) =
+      s.objs.length := by simp [lastId, copyField, allocObj_length]
+  have hr' := getObj_ok hr
+  rw [hlast] at hr'
+  have hr2 := hr'
+  rw [copyField, allocObj_new] at hr2
+  cases hr2
+  have hp' : p < (castCells (some ((s.store.dtOf oa.view.buf).resultScalar k))
+      (s.store.readView oa.view)).length := by rw [length_castCells, hlen]; exact hp
+  rw [denote_writeSel e1.wf _ _ _ hr' p (by simpa using hp'), hden]
+  simp only [Nat.zero_add, Nat.sub_zero, Option.join_some]
+  -- the operand is read from memory that the copy did not touch
+  have hold : (copyField s oa (some ((s.store.dtOf oa.view.buf).resultScalar k))).store.readView
+      oa.view = s.store.readView oa.view := by
+    refine Store.readView_congr _ _ _ hsz' ?_ ?_
+    · simp only [copyField, State.allocObj]; exact Store.size_alloc_lt _ _ _ hb
+    · intro i _ _; simp only [copyField, State.allocObj]; exact Store.read_alloc_lt _ _ _ i hb
+  have hcell : cellOf (s.store.readView oa.view) p = s.store.read oa.view.buf (oa.view.off + p) := by
+    unfold cellOf
+    rw [hlen, Nat.mod_eq_of_lt hp, Store.getElem?_readView _ _ p hp hsz']
+    rfl
+  have hnew : (copyField s oa (some ((s.store.dtOf oa.view.buf).resultScalar k))).store.read
+      s.store.next p =
+      (s.store.read oa.view.buf (oa.view.off + p)).map
+        (DCast.dcast ((s.store.dtOf oa.view.buf).resultScalar k)) := by
+    simp only [copyField, State.allocObj, Store.read_alloc_new, castCells, List.getElem?_map,
+      Store.getElem?_readView _ _ p hp hsz']
+    rfl
+  have hvs : ∀ (ms : List Nat) (vw : View),
+      validSel G { cls := oa.cls, grid := oa.grid, ncomp := oa.ncomp, view := vw, members := ms } p =
+        validSel G oa p := fun _ _ => rfl
+  by_cases hv : validSel G oa p = true
+  · rw [if_pos ⟨trivial, by omega, by simpa using hp', by rw [hvs]; exact hv⟩, if_pos hv, hold, hcell]
+  · rw [if_neg (fun h => hv (by rw [← hvs]; exact h.2.2.2)), if_neg hv, hnew]
+
 /-! ### values of copies -/
 
 /-- right after `f.copy(dtype=dt)` of a field the copy reads the values of the original, every
